@@ -73,6 +73,9 @@ struct qh {
 
 static struct mcq g_m0, g_m1;                    /* two queue objects (add_new: receiver / source) */
 static struct qh g_h0, g_h1;                     /* two holders */
+#ifdef MC_QH_QUEUES                              /* mc_qh.h: four queues of the holder under verification, four of another holder */
+static struct mcq g_bp, g_hp, g_np, g_lp, g_bp2, g_hp2, g_np2, g_lp2;
+#endif
 #define M_ID(q) ((q) == &g_m0 ? 1 : (q) == &g_m1 ? 2 : 0)
 #define H_ID(h) ((h) == &g_h0 ? 1 : (h) == &g_h1 ? 2 : 0)
 
@@ -96,7 +99,7 @@ struct mc_ghost {
   /* terminated_items_ */
   long term, term_pend, term_resv, term_owed, term_pushes, term_pops, term_incs, term_decs, v_term_pushes, v_term_pops; int term_push_id;
   long recycles, v_recycles; int recycle_id;
-  long removes, v_removes; int remove_id; bool remove_dealloc;
+  long removes, remove_deallocs, v_removes; int remove_id; bool remove_dealloc;
   long cleanups; size_t cleanup_num; bool cleanup_all;
   /* thread_queue_mc::add_new as a callee (get_next_thread) */
   long an_calls; int64_t an_count; int an_from; bool an_steal; size_t an_ret;
@@ -133,9 +136,14 @@ static void tid_release(thread_id_ref_type *p)
 { VX_ASSERT(*p == NULL || G.err != 0, "a new thread object goes out of scope without having been queued or returned: the task would be dropped silently"); }
 
 /* ---- where the victim is ---- */
-#define GV_STAGED (g_m0.gs_victim || g_m1.gs_victim)
-#define GV_QUEUED (g_m0.gw_victim || g_m1.gw_victim)
-#define VP_OK (!(g_m0.gs_victim && g_m1.gs_victim) && !(g_m0.gw_victim && g_m1.gw_victim) && \
+#ifndef GV_NSTAGED                               /* (mc_qh.h counts over its eight queue objects as well) */
+#define GV_NSTAGED (g_m0.gs_victim + g_m1.gs_victim)
+#define GV_NQUEUED (g_m0.gw_victim + g_m1.gw_victim)
+#endif
+#define GV_STAGED (GV_NSTAGED != 0)
+#define GV_QUEUED (GV_NQUEUED != 0)
+/* exactly one place (the map is a second place only together with pending / terminated / a holder) */
+#define VP_OK (GV_NSTAGED <= 1 && GV_NQUEUED <= 1 && \
                (!GV_STAGED || !(gv_mine || gv_map || GV_QUEUED || gv_term || gv_heap)) && \
                (!gv_mine || !(GV_QUEUED || gv_term || gv_heap)) && \
                (!gv_heap || !(gv_map || GV_QUEUED || gv_term)) && \
@@ -343,11 +351,13 @@ static void mc_at_release(void)
 #define TERMINV(h) (TERMRANGE(h, 0) && (!gv_term || G.term >= 1))
 static void mc_at_acquire(void)
 {
+  /* while the lock was free the other workers registered / removed threads (trusted: they keep the monitor invariant and leave a
+   * victim that is in this call's hands alone; where the victim is otherwise is chosen by the harness) */
   if (nondet_bool())
   {
-    G.map = nondet_long(); g_self_h->thread_map_count_ = (int32_t) G.map;
-    if (!gv_mine && !GV_STAGED && !gv_term) { gv_map = nondet_bool(); g_m0.gw_victim = false; g_m1.gw_victim = false; gv_heap = nondet_bool(); G.env_moved = true; }
-    VX_ASSUME(MAPRANGE(g_self_h, 8) && MAPINV(g_self_h) && VP_OK);
+    int32_t c = nondet_i32();
+    VX_ASSUME(c >= 0 && c <= MC_BIG - 8 && (!gv_map || c >= 1));
+    G.map = c; g_self_h->thread_map_count_ = c;
   }
 }
 
